@@ -160,6 +160,7 @@ func (h *clientConfigSessionHandler) handlePluginMessage(p *plugin.Message) {
 			target:     h.player,
 			identifier: id,
 			data:       p.Data,
+			forward:    true,
 		}, func(pme *PluginMessageEvent) {
 			if pme.Allowed() && serverConn.active() {
 				smc, ok := serverConn.ensureConnected()
